@@ -142,6 +142,7 @@ func (FramesClean) Generate(seed uint64, tier string) engine.Plan {
 			if m.Kind == "list" && r.Chance(1, 2) {
 				m.Entries = 40 // (see MsgSpec.Entries; many buckets: two encodings almost never agree)
 			}
+			m.RefusedBefore = genRefused(r)
 			w.Msgs = append(w.Msgs, m)
 			total += int64(32 + m.bodyBound())
 		}
@@ -408,6 +409,15 @@ func (FramesClean) Execute(pl engine.Plan, c *engine.RunCtx) *engine.Failure {
 					return
 				}
 				step := wi*1000 + i
+				if rm := spec.Refused(); rm != nil {
+					// a call the library refuses, on a writer of its own, recovered by
+					// the caller (a per-request recover): it must leave nothing behind
+					c.Status.SetStep(uint64(step), 1)
+					_, _, _ = callMarshal(simio.NewWriter(), rm)
+					c.Status.SetStep(uint64(step), 0)
+					c.LibCalls++
+					st.Inc("probe.C06.refused_marshal_before_a_frame." + spec.RefusedBefore)
+				}
 				msg := spec.Build()
 				var before int
 				if sw != nil {
